@@ -204,6 +204,31 @@ TabSources == <<
         <<6, 65534, 0, 0, 65535, 5, 4, 4>>)),
   \* single-byte sub-header only (an ASCII-only Big5 font), holes under idDelta 3
   TS("big5-f2-single", 3, 4, "Big5", F2(<<>>, <<Sub(65, 4, 3, 1, 0, 0)>>, <<1, 0, 0, 2>>)),
+  \* ---- round 4: Big5 sources beyond the plain table
+  \* codes that are NOT Big5 codes listing retained glyphs (they denote no character: nothing may be kept for them):
+  \* single bytes 0xFE / 0xFF, the "lead" bytes 0x41 (ASCII), 0x80 and 0xFF (outside 0x81..0xFE) with trail byte
+  \* 0x41 / 0x40, lead byte 0xA4 with the trail bytes 0x7F and 0xA0 (outside 0x40..0x7E / 0xA1..0xFE) next to the
+  \* real 0xA440 (U+4E00 -> glyph 5).  A decoder that takes 0x4141 for two ASCII bytes keeps 'A', one that computes
+  \* the index pointer of 0xA47F without the range test keeps U+4E5F (0xA45D has that pointer).
+  TS("big5-f2-not-big5-codes", 3, 4, "Big5",
+     F2(<<65, 128, 255, 164>>,
+        <<Sub(254, 2, 0, 5, 0, 0), Sub(65, 1, 0, 5, 1, 2), Sub(64, 1, 0, 5, 2, 3), Sub(64, 1, 0, 5, 3, 4), Sub(64, 97, 0, 5, 4, 5)>>,
+        <<1, 1, 2, 3, 4>> \o [i \in 1 .. 97 |-> IF i = 1 THEN 5 ELSE IF i \in {64, 97} THEN 6 ELSE 0])),
+  \* characters Big5 holds twice (U+2550: 0xA2A4 / 0xF9F9, U+5341: 0xA2CC / 0xA451, U+5345: 0xA2CE / 0xA4CA), both
+  \* codes of a character on ONE glyph (the second callback overwrites the first entry of the map); the codes
+  \* between them in the windows are holes
+  TS("big5-f2-characters-with-two-codes", 3, 4, "Big5",
+     F2(<<162, 164, 249>>,
+        <<Sub(66, 1, 0, 4, 0, 0), Sub(164, 43, 0, 4, 1, 1), Sub(81, 122, 0, 4, 2, 44), Sub(249, 1, 0, 4, 3, 166)>>,
+        <<4>> \o [i \in 1 .. 43 |-> IF i = 1 THEN 1 ELSE IF i = 41 THEN 2 ELSE IF i = 43 THEN 3 ELSE 0]
+              \o [i \in 1 .. 122 |-> IF i = 1 THEN 2 ELSE IF i = 122 THEN 3 ELSE 0] \o <<1>>)),
+  \* a Big5 record over a format 4 sub-table (the encoding comes from the record, the format from the sub-table):
+  \* ASCII by idDelta, 0xA440 .. 0xA443 by an idDelta that wraps, 0xA444 .. 0xA447 through the glyphIdArray with a hole
+  TS("big5-f4", 3, 4, "Big5",
+     [fmt |-> 4, segs |-> <<Seg(65, 66, -64, 0), Seg(42048, 42051, 23491, 0), Seg(42052, 42055, 0, RO4(4, 3, 0)), LastSeg>>,
+      gia |-> <<1, 0, 2, 5>>]),
+  \* ... and over a format 6 sub-table (single bytes only: an ASCII Big5 font), holes, a byte >= 0x80
+  TS("big5-f6", 3, 4, "Big5", [fmt |-> 6, first |-> 125, gia |-> <<1, 2, 3, 4>>]),
   \* ---- format 2 under the Windows Symbol record
   TS("sym-f2-double-delta-holes", 3, 0, "Symbol",
      F2(<<240>>, <<Sub(65, 2, 0, 2, 0, 0), Sub(64, 4, 2, 2, 1, 2)>>, <<5, 6, 1, 0, 2, 0>>)),
@@ -248,9 +273,12 @@ XTOf(i) ==
   (CASE ts.enc = "Unicode"    -> {c \in C : IsScalar(c)}
      [] ts.enc = "Symbol"     -> {SYM + c : c \in C} \cup {c \in C : IsScalar(c) /\ c \notin PuaImage}
      [] ts.enc = "AppleRoman" -> {MacToUni(b) : b \in C \cap (0 .. 255)} \cup {256, 65536}
-     [] ts.enc = "Big5"       -> Big5KnownChars \cup NotBig5Chars \cup {12289, 20058, 65536})
+     [] ts.enc = "Big5"       -> Big5KnownChars \cup NotBig5Chars \cup {12289, 20058, 65536, 127, 128, 254, 255, 9553, 21314, 21316})
   \ MacOptionalChars
 TabLists == {Iota(TG), Rev(Iota(TG)), Drop(Iota(TG), 1), Drop(Iota(TG), 2), Drop(Iota(TG), 3)}
+            \cup (IF Deep THEN {Drop(Iota(TG), j) : j \in 4 .. TG} \cup {SwapAdj(Iota(TG), j) : j \in 1 .. (TG - 1)}
+                                \cup {Drop(Drop(Iota(TG), 1), 1), <<2>>, <<>>}
+                        ELSE {})
 InitTab ==
   \E i \in 1 .. NTab : \E l \in TabLists : \E t \in Targets :
     par = PT(i, TabSources[i].enc, l, TG, t)
@@ -290,7 +318,8 @@ ASSUME \A i \in 1 .. NTab :
          /\ SoundSource(ts.t)
          /\ EnumerateEqualsLookups(ts.t, TabCodes(ts.t))
          /\ \A k \in 1 .. Len(EnumSeq(ts.t)) : EnumSeq(ts.t)[k][2] \in 0 .. TG
-         /\ ts.enc = "Big5" => \A k \in 1 .. Len(EnumSeq(ts.t)) : EnumSeq(ts.t)[k][2] # 0 => Big5ToUni(EnumSeq(ts.t)[k][1]) # NoChar
+         /\ ts.enc = "Big5" => \A k \in 1 .. Len(EnumSeq(ts.t)) :
+                                  EnumSeq(ts.t)[k][2] # 0 => (Big5ToUni(EnumSeq(ts.t)[k][1]) # NoChar \/ ~ValidBig5Code(EnumSeq(ts.t)[k][1]))
 
 \* ---- the inverse law of the Symbol -> Mac Roman conversion (CmapSubset!SymInverseLaw) -------------------
 \* over every 16-bit code (a format 4 source holds no other), usFirstCharIndex on both sides of 0x20, of
